@@ -184,6 +184,30 @@ def sec_metrics(nm):
     return out
 
 
+def _annotated_ufunc(p, q, bw):
+    from typing import Annotated
+
+    from xgcm.grid_ufunc import as_grid_ufunc
+
+    def f(a):
+        return a[..., 1:, :-1] - a[..., :-1, 1:]
+
+    f.__annotations__ = {"a": Annotated[np.ndarray, f"{p}:center,{q}:center"], "return": Annotated[np.ndarray, f"{p}:left,{q}:left"]}
+    return as_grid_ufunc(boundary_width=bw)(f)
+
+
+def _annotated_ufunc_1d(q):
+    from typing import Annotated
+
+    from xgcm.grid_ufunc import as_grid_ufunc
+
+    def f(a):
+        return a[..., 1:] + a[..., :-1]
+
+    f.__annotations__ = {"a": Annotated[np.ndarray, f"{q}:center"], "return": Annotated[np.ndarray, f"{q}:left"]}
+    return as_grid_ufunc(boundary_width={q: (1, 0)}, boundary="extend")(f)
+
+
 def sec_ufunc(nm):
     from xgcm import Grid
     from xgcm.grid_ufunc import apply_as_grid_ufunc, as_grid_ufunc
@@ -208,6 +232,8 @@ def sec_ufunc(nm):
         ("two-inputs", lambda: apply_as_grid_ufunc(lambda a, b: a + b[..., None, :], temp, temp.isel({N["dim_yc"]: 0}), axis=[(Y, X), (X,)], grid=g,
                                                    signature=f"({p}:center,{q}:center),({q}:center)->({p}:center,{q}:center)")),
         ("equivalent", lambda: g.diff(temp, [X, Y])),
+        ("annotated", lambda: _annotated_ufunc(p, q, bw)(g, temp, axis=[(X, Y)])),
+        ("annotated-1d", lambda: _annotated_ufunc_1d(q)(g, temp, axis=[(X,)])),
     ]
     for lab, fn in calls:
         r, e = outcome(N, fn)
@@ -330,6 +356,10 @@ def sec_faces(nm):
         ("vec-x", lambda: g.diff({X: u}, X, other_component={Y: v})), ("vec-y", lambda: g.interp({Y: v}, Y, other_component={X: u})),
         ("pad2", lambda: pad(s, g, {X: (1, 1), Y: (1, 1)}, boundary={X: "extend", Y: "fill"}, fill_value={Y: 4.0})),
         ("2dvec", lambda: g.diff_2d_vector({X: u, Y: v})),
+        # a component padded along the *other* axis as well (perpendicular component across the links)
+        ("pad-vec-both", lambda: pad({X: u}, g, {X: (1, 1), Y: (1, 1)}, boundary="fill", other_component={Y: v})),
+        ("pad-vec-perp", lambda: pad({Y: v}, g, {X: (1, 1)}, boundary="extend", other_component={X: u})),
+        ("vec-multi", lambda: g.interp({X: u}, [X, Y], to={X: "center", Y: "left"}, other_component={Y: v})),
     ]
     for lab, fn in calls:
         r, e = outcome(N, fn)
